@@ -131,7 +131,9 @@ class Livetime(
     @uptime_mjd_intervals_arr.setter
     def uptime_mjd_intervals_arr(self, arr):
         self.assert_mjd_intervals_integrity(arr)
-        self._uptime_mjd_intervals_arr = arr
+        # Keep an own copy of the intervals. Otherwise a later in-place change
+        # of the caller's array would silently change this live-time.
+        self._uptime_mjd_intervals_arr = np.array(arr)
 
     @property
     def n_uptime_mjd_intervals(self):
